@@ -199,13 +199,29 @@ type c10Want struct {
 	chkAttrs bool
 }
 
+// c10Resolve is the custom real-path resolver of the simulated backend: what it answers need not be a clean absolute
+// POSIX path (a share, a drive, a URL, something relative), and it is the handler's business alone.
+func c10Resolve(p string) string {
+	switch vfHashStr("resolve:"+p) % 6 {
+	case 0:
+		return "//host/share/" + p + "/"
+	case 1:
+		return "C:/x/" + p
+	case 2:
+		return "s3://bucket/" + p
+	case 3:
+		return "rel/../" + p + "/."
+	}
+	return "/custom/" + p
+}
+
 func c10Inbound(r *vfRun) {
 	sc, sim := r.sc, r.sim
 	startRaw := c10StartDirs[int(sc.cfg("startdir", 0))%len(c10StartDirs)]
 	hopt := int(sc.cfg("hopt", 0))
 	vfServerSites(sim, sc.cfg("sites", 3))
 	fs := newSfs(sim)
-	fs.realPathFn = func(p string) (string, error) { return "/custom/" + p, nil }
+	fs.realPathFn = func(p string) (string, error) { return c10Resolve(p), nil }
 	srv := vfStartServer(sim, 1, sc.cfg("alloc", 0) != 0, fs, hopt, "", false, startRaw, 0)
 	wc := vfNewWireClient(sim, srv.c2s, srv.s2c, sc.Ops)
 	wc.window = int(sc.cfg("window", 1))
@@ -306,6 +322,11 @@ func c10Inbound(r *vfRun) {
 		case "realpath":
 			if has(16) || hopt&32 != 0 {
 				w = &c10Want{method: "RealPath", filepath: q.Path, verbatim: true}
+				// ... and the resolver's answer reaches the client as given
+				if want := c10Resolve(q.Path); p.Type != wtName || len(p.Names) != 1 || p.Names[0].Name != want {
+					r.fail("C10/realpath", "custom-answer", "REALPATH %q: the custom resolver answered %q, the client got %v %v", q.Path, want, p, p.Names)
+					return
+				}
 			} else {
 				// built-in: the reply itself must be the clean absolute path
 				if p.Type != wtName || len(p.Names) != 1 || p.Names[0].Name != clean {
